@@ -15,7 +15,7 @@ Decided statically:
 Not decided: the invariant over histories as such, replica contents.
 """
 from ..mir import AnchorLost
-from ..util import df_of, fn_short, in_set, operand_path, path_last, backward_slice, field_writers, _rv_locals
+from ..util import df_of, fn_short, in_set, operand_path, path_last, backward_slice, field_writers, _rv_locals, uses_of_local, switch_on, switch_edges
 from .c20 import slice_fields
 
 T = "scylla::routing::locator::tablets::"
@@ -268,6 +268,88 @@ def r5(ctx, facts):
                        "the flag is raised where tablet.failed.is_some()", ab.stmt_span(s), nontrivial=False)
 
 
+def consumers(b, l, depth=0):
+    """what finally consumes local l: [('call', Call, arg_index, by_ref_mut)] / [('other', description)], following
+    whole-local moves into temporaries and borrows of the local"""
+    out = []
+    if depth > 6:
+        return [("other", "deep move chain")]
+    calls_by_bb = {bb: c for bb, c in b.calls()}
+    for bb, kind, op in uses_of_local(b, l):
+        if kind[0] == "arg":
+            out.append(("call", calls_by_bb[bb], kind[1], "move"))
+        elif kind[0] == "stmt" and kind[1][2][0] == "use" and not kind[1][1][1]:
+            out += consumers(b, kind[1][1][0], depth + 1)
+        elif kind[0] == "ref":
+            st = kind[1]
+            how = "mut" if st[2][0] == "addr" or str(st[2][1]).startswith("m") else "shared"
+            for k2 in consumers(b, st[1][0], depth + 1):
+                out.append((k2[0], k2[1], k2[2], how) if k2[0] == "call" else k2)
+        elif kind[0] == "read":
+            continue
+        else:
+            out.append(("other", "%s" % (kind[1],)))
+    return out
+
+
+def r6(ctx, facts):
+    r = ctx.rule("R6", "every tablet received from the feedback channel is applied, in arrival order", floor=5)
+    # (a) the worker: the batch filled by recv_many goes to update_tablets untouched
+    wb = facts.one(r"^scylla::cluster::worker::ClusterWorker::work::\{closure#0\}$")
+    rm = wb.calls_to("Receiver::<T>::recv_many")
+    if len(rm) != 1:
+        raise AnchorLost("cluster worker: expected one recv_many on the tablets channel, found %d" % len(rm))
+    buf = None
+    a = rm[0].args[1]
+    for _ in range(6):
+        sd = wb.single_def(a[1][0]) if a[0] in ("c", "m") and not a[1][1] else None
+        if sd and sd[0] == "stmt" and sd[3][0] in ("ref", "addr"):
+            if sd[3][-1][1]:   # reborrow `&mut *_r`: keep following the reference
+                a = ["c", [sd[3][-1][0], []]]
+                continue
+            buf = sd[3][-1][0]
+            break
+        if sd and sd[0] == "stmt" and sd[3][0] == "use":
+            a = sd[3][1]
+            continue
+        break
+    if buf is None:
+        raise AnchorLost("cluster worker: the recv_many buffer local was not found")
+    cons = consumers(wb, buf)
+    names = []
+    for k in cons:
+        if k[0] == "call":
+            names.append((fn_short(k[1].name or "?"), k[3]))
+        else:
+            names.append((k[1], None))
+    extra = sorted({n for n, m in names if n not in ("Receiver::recv_many", "ClusterState::update_tablets") and m != "shared"})
+    r.instance("batch-untouched-in-worker", not extra, "between recv_many and update_tablets the received batch must not be filtered / reordered / truncated; it is also handed to %s" % extra, rm[0].span)
+    r.instance("batch-reaches-update_tablets", any(n == "ClusterState::update_tablets" for n, _ in names), "the received batch must be passed to ClusterState::update_tablets", rm[0].span)
+    # (b) update_tablets: the batch is only iterated; every element reaches add_tablet before the next one is taken
+    ub = facts.one(r"^scylla::cluster::state::ClusterState::update_tablets$")
+    cons = consumers(ub, 2)
+    names = sorted({fn_short(k[1].decl or k[1].name or "?") if k[0] == "call" else k[1] for k in cons if not (k[0] == "call" and k[3] == "shared")})
+    r.instance("batch-only-iterated", names == ["IntoIterator::into_iter"] or all(n.endswith("into_iter") or n.endswith("into_iter[IntoIterator]") for n in names) and names,
+               "update_tablets must consume its batch only through into_iter(); consumers found: %s" % names, ub.span)
+    nx = [c for c in ub.calls_to("core::iter::traits::iterator::Iterator::next") if "IntoIter" in str(c.callee.get("self_ty", "")) or "IntoIter" in str(c.callee.get("args", ""))]
+    adds = ub.calls_to("TabletsInfo::add_tablet")
+    if len(nx) != 1 or len(adds) != 1:
+        raise AnchorLost("update_tablets: expected one IntoIter::next and one add_tablet call, found %d/%d" % (len(nx), len(adds)))
+    nxt, add = nx[0], adds[0]
+    reach = ub.reachable_after(nxt.bb, removed_nodes=[add.bb]) if hasattr(ub, "reachable_after") else set()
+    df = df_of(ub, facts)
+    sws = switch_on(ub, df, ("disc", (nxt.dest[0], ())))
+    if len(sws) != 1:
+        raise AnchorLost("update_tablets: the result of next() is not matched exactly once")
+    edges, other = switch_edges(ub, sws[0])
+    some_tg = edges.get(1, other)
+    rs = ub.reachable_from(some_tg, removed_nodes=[add.bb])
+    r.instance("every-element-applied", nxt.bb not in rs and not (rs & set(ub.exits)),
+               "from the `Some(element)` edge of the loop, add_tablet must be called on every path before the next element is taken or the function returns", add.span)
+    r.instance("add_tablet-gets-the-element", nxt.dest[0] in backward_slice(ub, add.args[2])[0] and nxt.dest[0] in backward_slice(ub, add.args[1])[0],
+               "both arguments of add_tablet derive from the element just taken", add.span)
+
+
 def check(ctx):
     facts = ctx.facts("default")
     add = None
@@ -275,7 +357,7 @@ def check(ctx):
         add = r1(ctx, facts)
     except AnchorLost as ex:
         ctx.rule("R1x", "anchors of r1").fail("anchor-lost", str(ex))
-    for fn in ((lambda c, f: r2(c, f, add)) if add else None, r3, r4, r5):
+    for fn in ((lambda c, f: r2(c, f, add)) if add else None, r3, r4, r5, r6):
         if fn is None:
             continue
         try:
